@@ -1,3 +1,62 @@
-From KS Require Import lib.Base model.SqlParse.
+(* C35 — The SQL parser never crashes and ignores keyword case.
+   Only statements closed by [exact]; proofs live in proofs/SqlParseProofs.v. *)
+From KS Require Import lib.Base model.SqlParse proofs.SqlParseProofs proofs.SqlParseCaseProofs.
 Open Scope Z_scope.
-Example C35_nonvacuous : True. Proof. exact I. Qed.
+
+(* the lowering the fixed parser computes its offsets on keeps the byte length,
+   for every byte string (valid UTF-8 or not) *)
+Theorem C35_ascii_lower_preserves_length : forall s, length (ascii_lower s) = length s.
+Proof. exact ascii_lower_length. Qed.
+Print Assumptions C35_ascii_lower_preserves_length.
+
+(* every slice expression s[a:b] and every index expression fields[i] of the parser
+   is in range, and the explain recursion terminates, for ALL query texts and all
+   behaviours of the regular-expression oracles, as soon as the lowering function
+   used for the offsets preserves the length *)
+Theorem C35_slices_safe : forall lower_fn ulower ts_err jexpr_ok,
+  (forall s, length (lower_fn s) = length s) ->
+  forall raw, parse_with lower_fn ulower ts_err jexpr_ok raw <> Panic /\
+              parse_with lower_fn ulower ts_err jexpr_ok raw <> NoFuel.
+Proof. exact parse_with_safe. Qed.
+Print Assumptions C35_slices_safe.
+
+(* the parser as fixed (offsets on lowerASCII(text)): a query or an error, never a crash *)
+Theorem C35_never_crashes : forall ulower ts_err jexpr_ok raw,
+  parse ulower ts_err jexpr_ok raw <> Panic /\ parse ulower ts_err jexpr_ok raw <> NoFuel.
+Proof. exact parse_never_panics. Qed.
+Print Assumptions C35_never_crashes.
+
+(* ASCII letter case never matters: two texts with the same ASCII-lower-cased form
+   (in particular a query and any re-casing of its keywords) parse to the same
+   query, error for error and field for field — topic, aliases, join, filters,
+   group/order, scan — the raw display strings (SelectColumn.Raw, join expression
+   texts) being equal up to ASCII case. The regular-expression oracles and
+   strings.ToLower are assumed case-insensitive in the same sense. *)
+Theorem C35_keyword_case : forall ulower ts_err jexpr_ok,
+  (forall a b, ascii_lower a = ascii_lower b -> ulower a = ulower b) ->
+  (forall a b, ascii_lower a = ascii_lower b -> ts_err a = ts_err b) ->
+  (forall a b, ascii_lower a = ascii_lower b -> jexpr_ok a = jexpr_ok b) ->
+  forall q q', ascii_lower q = ascii_lower q' ->
+  norm_res (parse ulower ts_err jexpr_ok q) = norm_res (parse ulower ts_err jexpr_ok q').
+Proof. exact parse_case_insensitive. Qed.
+Print Assumptions C35_keyword_case.
+
+(* non-vacuity: the model parses a join query and an explain; and the length
+   hypothesis is necessary — with a lowering that lengthens U+023A (what
+   strings.ToLower does) the design-round witness
+   "select ȺȺȺȺȺȺȺȺȺȺȺȺȺȺȺȺȺȺȺȺ from t order by x" panics in the model too *)
+Example C35_nonvacuous :
+  let id := fun s : bytes => s in
+  let q1 := [83;69;76;69;67;84;32;42;32;70;82;79;77;32;111;114;100;101;114;115;32;111;32;74;79;73;78;32;112;97;121;32;112;32;79;78;32;111;46;95;107;101;121;32;61;32;112;46;95;107;101;121;32;79;82;68;69;82;32;66;89;32;95;116;115;32;68;69;83;67;59] in
+  let q2 := [101;120;112;108;97;105;110;32;115;101;108;101;99;116;32;95;107;101;121;44;32;99;111;117;110;116;40;42;41;32;102;114;111;109;32;116;32;103;114;111;117;112;32;98;121;32;95;107;101;121] in
+  let w := [115;101;108;101;99;116;32] ++ concat (repeat [200;186] 20) ++ [32;102;114;111;109;32;116;32;111;114;100;101;114;32;98;121;32;120] in
+  (match parse ascii_lower (fun _ => false) (fun _ => true) q1 with
+   | Ok (QSelect s) => s_topic s = [111;114;100;101;114;115] /\ s_jtopic s = [112;97;121] /\ s_jtype s = 1 /\
+                       s_order s = [95;116;115] /\ s_desc s = true /\ s_cols s = [[42]]
+   | _ => False end) /\
+  (match parse ascii_lower (fun _ => false) (fun _ => true) q2 with
+   | Ok (QExplain s) => s_topic s = [116] /\ s_group s = [[95;107;101;121]] /\ length (s_cols s) = 2%nat
+   | _ => False end) /\
+  parse_with growing_lower id (fun _ => false) (fun _ => true) w = Panic /\
+  (exists q, parse ascii_lower (fun _ => false) (fun _ => true) w = Ok q).
+Proof. vm_compute. repeat split. eexists. reflexivity. Qed.
